@@ -15,6 +15,7 @@ import (
 //verif:unwind 12
 //verif:timeout 400
 func VH_C03_write_sends_every_byte_once_in_order() {
+	sessCreated = 0
 	ss := sessState(1)
 	ss.handleState = established
 	ss.readKey, ss.writeKey = &ss.clientToServerKey, &ss.serverToClientKey
@@ -32,6 +33,7 @@ func VH_C03_write_sends_every_byte_once_in_order() {
 	verifAssert(wrote == n, "C03: Write reports exactly the number of bytes it was given")
 	k := len(sessLog.seals)
 	verifAssert(u.writes == k, "C03: one datagram per sealed packet")
+	verifAssert(sessCreated == k, "C03: every packet is sealed by an AEAD instance of its own (SANSE keeps a session history: with a shared instance one lost, reordered or forged datagram makes every later packet fail to open)")
 	verifAssert(ss.count == oldCount+uint64(k), "C03: the send counter advances once per packet")
 	total := 0
 	i := verifInt("probe")
@@ -247,4 +249,23 @@ func VH_C18_certificate_vectors_roundtrip() {
 		verifAssertBytesEq(got2, inter, "C18: certificate vector round-trip: intermediate")
 	}
 	verifCover("roundtrip")
+}
+
+//verif:prop C12
+//verif:replay none
+//verif:stub hop.computer/hop/kravatte.NewSANSE = sessNewSANSE
+//verif:bounds as VH_C03_write_sends_every_byte_once_in_order (the transport's use of the AEAD: one instance per packet)
+//verif:cover one-packet;two-packets;three-packets;four-packets
+//verif:unwind 12
+//verif:timeout 400
+func VH_C12_transport_seals_every_packet_with_its_own_aead_instance() {
+	VH_C03_write_sends_every_byte_once_in_order()
+}
+
+//verif:prop C12
+//verif:replay none
+//verif:bounds as VH_C03_receive_buffers_hold_the_largest_packet (a maximum-size sealed packet must arrive whole to open)
+//verif:cover server;client
+func VH_C12_receive_buffers_hold_the_largest_sealed_packet() {
+	VH_C03_receive_buffers_hold_the_largest_packet()
 }
